@@ -1,6 +1,6 @@
 (* Lemmas about the daemon model's memory table, address translation and ring
    configuration (Model.Daemon): C13, C14. *)
-From VV Require Import Base.Bits Base.Rt Base.Val Gen.GenConsts Model.Daemon Proofs.DaemonProofs.
+From VV Require Import Base.Bits Base.Rt Base.Val Gen.GenConsts Gen.GenRoute Model.Daemon Proofs.DaemonProofs.
 From Coq Require Import ZArith ZifyBool ZifyNat ZifyN.
 Open Scope list_scope.
 Open Scope N_scope.
@@ -180,7 +180,7 @@ Lemma va_to_gpa_sound maps va g :
   exists mp, In mp maps /\ m_vmm mp <= va < m_vmm mp + m_size mp /\ g = m_gpa mp + (va - m_vmm mp).
 Proof.
   unfold va_to_gpa. destruct (find _ maps) as [mp|] eqn:E; [|discriminate].
-  intros H. inversion H; subst. apply find_some in E. destruct E as [Hin Hc].
+  intros H. inversion H; subst. apply find_some in E. destruct E as [Hin Hc]. unfold va_hit in Hc. unfold va_gpa.
   exists mp. split; [assumption|]. split; lia.
 Qed.
 
@@ -188,8 +188,8 @@ Lemma va_to_gpa_none maps va :
   va_to_gpa maps va = None <-> (forall mp, In mp maps -> ~ (m_vmm mp <= va < m_vmm mp + m_size mp)).
 Proof.
   unfold va_to_gpa. destruct (find _ maps) as [mp|] eqn:E.
-  - split; [discriminate|]. intros H. apply find_some in E. destruct E as [Hin Hc]. exfalso. apply (H mp Hin). lia.
-  - split; [|reflexivity]. intros _ mp Hin Hc. pose proof (find_none _ _ E mp Hin) as Hn. cbn beta in Hn. lia.
+  - split; [discriminate|]. intros H. apply find_some in E. destruct E as [Hin Hc]. unfold va_hit in Hc. exfalso. apply (H mp Hin). lia.
+  - split; [|reflexivity]. intros _ mp Hin Hc. pose proof (find_none _ _ E mp Hin) as Hn. cbn beta in Hn. unfold va_hit in Hn. lia.
 Qed.
 
 (* ------------------------------------------------------------------ bytes: one byte written on one side is read on the other *)
@@ -354,3 +354,16 @@ Proof.
     + reflexivity.
   - eexists. split; [eapply get_put_ring_same; exact Hr|reflexivity].
 Qed.
+
+(* ---- the expressions of vmm_va_to_gpa regenerated from handler.rs ---- *)
+Lemma va_hit_spec va a sz g : va_hit va a sz g = true <-> a <= va < a + sz.
+Proof. unfold va_hit. lia. Qed.
+Lemma va_gpa_spec va a sz g : a <= va -> va_gpa va a sz g = g + (va - a).
+Proof. unfold va_gpa. lia. Qed.
+Definition va_shape_ok : bool :=
+  match va_shape with
+  | [a; b; c] => String.eqb a "for mapping in self . mappings . iter ()" && String.eqb b "return Ok" && String.eqb c "otherwise Err"
+  | _ => false
+  end.
+Lemma va_shape_ok_true : va_shape_ok = true.
+Proof. vm_compute. reflexivity. Qed.
